@@ -21,7 +21,7 @@ SCRATCH = os.path.join(os.environ.get("TMPDIR", "/tmp"), "nbverif-selftest")
 def _copy_tree(dst):
     shutil.rmtree(dst, ignore_errors=True)
     os.makedirs(dst)
-    for name in ["Cargo.toml", "Cargo.lock", "numbat", "numbat-cli", "numbat-exchange-rates", "book/src/basics/operations.md"]:
+    for name in ["Cargo.toml", "Cargo.lock", "numbat", "numbat-cli", "numbat-exchange-rates", "book/src/basics/operations.md", "book/src/basics/date-and-time.md"]:
         src = os.path.join(facts.REPO, name)
         if os.path.isdir(src):
             shutil.copytree(src, os.path.join(dst, name), ignore=shutil.ignore_patterns("target", ".git"))
